@@ -68,6 +68,7 @@ type jobRec struct {
 	JCUID      string
 	Pods       []*podRec
 	ForeignHit bool // a non-owned object occupies one of its task names
+	CtrlRV     int  // resourceVersion of the latest version written by the job controller itself
 }
 
 // Monitors holds the online oracles of all simulation-decided properties.
@@ -535,8 +536,16 @@ func (m *Monitors) podCreated(ev *Event, p *corev1.Pod, juid string) {
 	if retry >= 1 {
 		m.Retries++
 	}
+	// Did the creating reconcile act on a cached Job that predates the job controller's own latest write?
+	// (Then tasks recorded by that write - and deleted since - are unknown to it: known finding "stale-job-view".)
+	staleSuffix := ""
+	if sv := viewJob(m.w.current, j.Namespace, j.Name); sv != nil && string(sv.UID) == juid {
+		if rv, _ := strconv.Atoi(sv.ResourceVersion); rv < jr.CtrlRV {
+			staleSuffix = ":stale-job-view"
+		}
+	}
 	if retry != prev {
-		sig := "retry-numbering"
+		sig := "retry-numbering" + staleSuffix
 		if forgotten {
 			sig = "retry-numbering:unrecorded-task:forgotten-attempt"
 		}
@@ -548,7 +557,7 @@ func (m *Monitors) podCreated(ev *Event, p *corev1.Pod, juid string) {
 	// API timestamps have one-second resolution (the controller's notion of the finish time is truncated)
 	lastFinish = lastFinish.Truncate(time.Second)
 	if prev > 0 && !lastFinish.IsZero() && now.Before(lastFinish.Add(retryDelay(j))) {
-		sig := "retry-too-early"
+		sig := "retry-too-early" + staleSuffix
 		if forgotten {
 			sig = "retry-too-early:unrecorded-task:forgotten-attempt"
 		}
@@ -573,7 +582,7 @@ func (m *Monitors) podCreated(ev *Event, p *corev1.Pod, juid string) {
 			m.fail("C07", "task-before-start", "task %s created for a Job that (as read) has not been started", p.Name)
 		}
 		if sat, unsat := m.viewDecided(m.w.current, vj); sat || unsat {
-			m.fail("C08", "create-after-complete", "task %s created although the strategy was already decided in what the reconcile read (satisfied=%v unsatisfiable=%v)", p.Name, sat, unsat)
+			m.fail("C08", "create-after-complete"+staleSuffix, "task %s created although the strategy was already decided in what the reconcile read (satisfied=%v unsatisfiable=%v)", p.Name, sat, unsat)
 		}
 	}
 	if jr.Refused {
@@ -953,6 +962,9 @@ func (m *Monitors) onJob(ev *Event) {
 	}
 	m.checkJobTransition(ev, jr, old, j)
 	jr.LastObj = j
+	if isCtrl(ev.Actor) && m.w.current != nil && m.w.current.Ctl.Name == "job" {
+		jr.CtrlRV, _ = strconv.Atoi(j.ResourceVersion)
+	}
 }
 
 func (m *Monitors) checkJobTransition(ev *Event, jr *jobRec, old, j *execution.Job) {
